@@ -368,6 +368,50 @@ pub fn run(cfg: &Cfg) {
     feed_key_importers(&mut sink, b"-----BEGIN PUBLIC KEY-----\nAAAA\n-----END PUBLIC KEY-----");
     feed_key_importers(&mut sink, &[0x30, 0x00]);
 
+    // ---- signed blocks read from JSON and verified with every threshold from 0 to one more than their
+    //      signers (fewer, exactly as many, and more good signatures than asked for), key lists that
+    //      repeat, omit or add keys, signature lists that repeat or drop entries
+    for _ in 0..(if cfg.thorough { 600 } else { 60 }) {
+        let n = 1 + r.below(4);
+        let signers: Vec<&KeyInfo> = (0..n).map(|_| r.pick(&pool)).collect();
+        let meta = if r.chance(1, 2) { MetadataWrapper::Link(gen_link(&mut r, None)) } else { MetadataWrapper::Layout(gen_layout(&mut r, &pool)) };
+        let keys: Vec<&in_toto::crypto::PrivateKey> = signers.iter().map(|k| &k.key).collect();
+        let mb = match Metablock::new(meta, &keys) {
+            Ok(m) => m,
+            Err(_) => continue,
+        };
+        let text = serde_json::to_string(&mb).unwrap();
+        let mut j: serde_json::Value = serde_json::from_str(&text).unwrap();
+        if let Some(sigs) = j["signatures"].as_array_mut() {
+            match r.below(4) {
+                0 if !sigs.is_empty() => {
+                    let d = sigs[0].clone();
+                    sigs.push(d);
+                }
+                1 if !sigs.is_empty() => {
+                    sigs.pop();
+                }
+                _ => {}
+            }
+        }
+        let text = j.to_string();
+        for t in 0..=(n as u32 + 1) {
+            let mut auth: Vec<PublicKey> = signers.iter().map(|k| k.public().clone()).collect();
+            match r.below(4) {
+                0 => auth.push(r.pick(&pool).public().clone()),
+                1 => {
+                    auth.pop();
+                }
+                2 => auth.push(auth[0].clone()),
+                _ => {}
+            }
+            let t2 = text.clone();
+            let res = guarded(move || serde_json::from_str::<Metablock>(&t2).map(|m| m.verify(t, auth.iter()).is_ok()).unwrap_or(false));
+            sink.stat(&format!("block-verify/{}-of-{}/{}", t, n, match res { Err(()) => "PANIC", Ok(true) => "ok", Ok(false) => "err" }));
+            sink.oracle(res.is_ok(), "Metablock::verify panicked on a well-typed signed block", &format!("threshold {} block {}", t, hex(text.as_bytes())));
+        }
+    }
+
     // ---- seeds: valid documents of every kind
     let mut seeds: Vec<Vec<u8>> = vec![];
     for _ in 0..8 {
